@@ -16,7 +16,7 @@ func profileByName(name string) Profile {
 		p.MaxScopes, p.PExport = 5, 0.3
 		p.MinFns, p.MaxFns = 3, 10
 	case "scopes":
-		p.MaxScopes, p.PExport, p.PLateScope, p.PDup = 5, 0.3, 0.6, 0.1
+		p.MaxScopes, p.PExport, p.PLateScope, p.PDup = 6, 0.3, 0.6, 0.1
 		p.Types = []int{0, 1, 2}
 		p.MinFns, p.MaxFns = 4, 12
 		p.PMidInvoke = 0.4
